@@ -131,7 +131,7 @@ func genGR(seed uint64, tier, mode string) *Script {
 	add(Op{Kind: "probe"})
 	cycles := g.rng(1, 3)
 	for c := 0; c < cycles; c++ {
-		loss := pick(g, []string{"reset", "reset", "close", "holdexp", "notif", "hardreset", "shutdown", "disable", "delpeer"})
+		loss := pick(g, []string{"reset", "reset", "close", "holdexp", "holdstall", "notif", "hardreset", "shutdown", "disable", "delpeer"})
 		add(Op{Kind: "loss", Arg: loss})
 		add(Op{Kind: "probe"})
 		if loss == "delpeer" {
@@ -505,6 +505,26 @@ func grOp(w *simWorld, actor int, op *Op) {
 				c.Write(notificationBytes(6, 9, nil))
 				c.Close()
 			}
+		case "holdstall":
+			// the path to the neighbour is dead in both directions: it stops talking AND its
+			// receive window is full, so gobgp's hold timer runs out and the NOTIFICATION it
+			// tries to send cannot be written either
+			p.mu.Lock()
+			ks := p.kaStop
+			hold := p.hold
+			c := p.conn
+			p.mu.Unlock()
+			if hold == 0 || c == nil {
+				p.dropSession("reset")
+			} else {
+				c.r.setStalled(true)
+				close(ks)
+				w.net.stats.fire("half_open")
+				w.net.stats.fire("stall_write")
+				p.waitDown(time.Duration(hold+4) * time.Second)
+				c.r.setStalled(false)
+				t = w.now()
+			}
 		case "holdexp":
 			// stop talking: gobgp's hold timer runs out
 			p.mu.Lock()
@@ -528,7 +548,7 @@ func grOp(w *simWorld, actor int, op *Op) {
 		}
 		p.waitDown(3 * time.Second)
 		grSettle()
-		if op.Arg == "holdexp" {
+		if op.Arg == "holdexp" || op.Arg == "holdstall" {
 			w.grLose(st, "holdexp", t)
 		} else {
 			w.grLose(st, op.Arg, t)
